@@ -213,8 +213,31 @@ func TextN(r *core.Rand, n int) string {
 			}
 		}
 	}
+	// now and then a text begins or ends with something a normaliser would strip or rewrite: a
+	// byte order mark, white space, a NUL, a replacement character, a C1 control, a quote
+	textEdges(r, b)
 	return string(b)
 }
+
+func textEdges(r *core.Rand, b []byte) {
+	n := len(b)
+	if n > 0 && r.Chance(1, 6) {
+		tok := textEdgeTokens[r.Intn(len(textEdgeTokens))]
+		if len(tok) <= n {
+			if r.Bool() {
+				copy(b, tok)
+			} else {
+				copy(b[n-len(tok):], tok)
+			}
+			if r.Chance(1, 4) && 2*len(tok) <= n { // both ends
+				copy(b, tok)
+				copy(b[n-len(tok):], tok)
+			}
+		}
+	}
+}
+
+var textEdgeTokens = []string{"\uFEFF", "\uFEFF", " ", "  ", "\t", "\n", "\r\n", "\x00", "\x00\x00", "\uFFFD", "\u0085", "\u00A0", "\u2028", "\"", "'", "%", "\\", "\uFFFE", "\u200B"}
 
 func Text(r *core.Rand) string {
 	var n int
@@ -265,6 +288,7 @@ func Text(r *core.Rand) string {
 			copy(b[i:], string(rune(r.Pick(0xE9, 0x20AC, 0x1F600, 0x7FF, 0x800, 0xFFFD, 0x10FFFF))))
 		}
 	}
+	textEdges(r, b)
 	return string(b)
 }
 
